@@ -1,5 +1,6 @@
 import TempestVerif.Model.Warmup
 import TempestVerif.Lemmas.ScReal
+import TempestVerif.Lemmas.MIS
 import Mathlib.Tactic
 /-
   C11 — zero-likelihood prior regions are excluded and counted exactly once.
@@ -224,6 +225,60 @@ theorem C11_no_inf_stored (fin : L → Prop) (l : List L) (tgt src : List Nat)
   rcases scatter_fin_or_old fin l tgt src hlen hsrc i v h with hf | ⟨hold, hnot⟩
   · exact hf
   · by_contra hc; exact hnot (hcover i v hold hc)
+
+/-! ### the final evidence is the integral over the supported region -/
+section final
+open Lemmas.MIS Finset
+variable {Ω T : Type} [Fintype Ω] [Fintype T]
+
+/-- C11 (final evidence): let the likelihood vanish on part of the prior.  Restricted to the supported region
+    `Ω⁺ = {x | 0 < L x}` every stored batch — the warm-up batches are draws from the prior RESTRICTED to Ω⁺, recorded with the
+    normaliser `Z_0 = p(Ω⁺)`, the supported prior mass counted once — has its nominal tempered law on Ω⁺, so the
+    mixture-importance estimator is exactly unbiased for the integral over Ω⁺, and for β > 0 that integral is the whole integral
+    (the likelihood contributes nothing outside Ω⁺). -/
+theorem C11_final (p L : Ω → ℝ) (n bt : T → ℝ) (β : ℝ) (f : Ω → ℝ)
+    (hp : ∀ x, 0 ≤ p x) (hsupp : ∃ x, 0 < L x ∧ 0 < p x) (hL : ∀ x, 0 ≤ L x)
+    (hn : ∀ t, 0 ≤ n t) (hN : 0 < ∑ s, n s) (hβ : 0 < β) :
+    let S := {x : Ω // 0 < L x}
+    let p' : S → ℝ := fun x => p x.1
+    let L' : S → ℝ := fun x => L x.1
+    let f' : S → ℝ := fun x => f x.1
+    -- unbiased for the supported integral …
+    (∑ t, (n t / ∑ s, n s) * ∑ x, piB p' L' (bt t) x * (f' x * misW p' L' n bt β x) = ∑ x, gam p' L' β x * f' x) ∧
+    -- … the β = 0 normaliser is the supported prior mass …
+    Zf p' L' 0 = ∑ x : S, p x.1 ∧
+    -- … and the supported integral is the whole integral
+    ∑ x : S, gam p' L' β x * f' x = ∑ x, p x * L x ^ β * f x := by
+  classical
+  intro S p' L' f'
+  obtain ⟨x0, hx0L, hx0p⟩ := hsupp
+  refine ⟨?_, ?_, ?_⟩
+  · exact mis_core p' L' n bt β f' fun x _ =>
+      (den_pos p' L' n bt hn hN (fun x => x.2)
+        (fun t => Zf_pos p' L' (fun x => hp x.1) ⟨⟨x0, hx0L⟩, hx0p⟩ (fun x => x.2) (bt t)) x).ne'
+  · exact Zf_zero p' L'
+  · -- sum over the subtype = sum over Ω of the same summand, which vanishes where L = 0
+    have : ∑ x : S, gam p' L' β x * f' x = ∑ x : S, (fun y : Ω => p y * L y ^ β * f y) x.1 := by
+      refine Finset.sum_congr rfl fun x _ => ?_
+      simp [gam, p', L', f']
+    rw [this, ← Finset.sum_subtype (Finset.univ.filter fun y : Ω => 0 < L y) (by simp)
+      (fun y : Ω => p y * L y ^ β * f y)]
+    rw [Finset.sum_filter]
+    refine Finset.sum_congr rfl fun y _ => ?_
+    by_cases hy : 0 < L y
+    · simp [hy]
+    · have : L y = 0 := le_antisymm (not_lt.mp hy) (hL y)
+      simp [hy, this, Real.zero_rpow hβ.ne']
+
+/-- non-vacuity: two states, the likelihood vanishes on the first; one warm-up batch (β = 0) and one at β = 1 -/
+example : ∑ x : {x : Fin 2 // 0 < (fun i : Fin 2 => if i = 0 then (0 : ℝ) else 2) x},
+    gam (fun y => (1 / 2 : ℝ)) (fun y => if y.1 = 0 then (0 : ℝ) else 2) 1 x * 1
+    = ∑ x : Fin 2, (1 / 2 : ℝ) * (if x = 0 then (0 : ℝ) else 2) ^ (1 : ℝ) * 1 :=
+  (C11_final (fun _ : Fin 2 => (1 / 2 : ℝ)) (fun i => if i = 0 then 0 else 2) (fun _ : Fin 2 => (1 : ℝ))
+    (fun t : Fin 2 => if t = 0 then 0 else 1) 1 (fun _ => 1) (by intro x; norm_num)
+    ⟨1, by simp, by norm_num⟩ (by intro x; split <;> norm_num) (by intro t; norm_num) (by simp) one_pos).2.2
+
+end final
 
 /-! ### non-vacuity -/
 example : scatterFrom [5, 0, 7, 0] [1, 3] [2, 0] = [5, 7, 7, 5] := by decide
